@@ -82,7 +82,7 @@ def write_replay(prop, seed, case, v, digest, extra=None):
         json.dump({'property': prop, 'seed': seed,
                    'expect': {'prop': v['prop'], 'rule': v['rule'], 'disc': v['disc']},
                    'detail': v['detail'], 'digest': digest, 'case': case,
-                   'extra': extra or {}}, f, indent=1, sort_keys=True)
+                   'extra': extra or {}}, f, indent=1)  # key order is part of the case
     return path
 
 
@@ -162,7 +162,8 @@ def cmd_check(args):
         t0 = time.time()
         agg = batch.search(pname, prop, base_seed, runs, workers=args.workers,
                            max_secs=secs * share + 5,
-                           stop_on_violation=not (args.all or args.want))
+                           stop_on_violation=not (args.all or args.want),
+                           opts={'known': [list(k) for k in known_sigs]})
         per_profile[pname] = {
             'runs': agg['evaluations'], 'wall_s': round(time.time() - t0, 2),
             'distinct_nontrivial': len(agg['shapes'])}
@@ -247,7 +248,7 @@ def cmd_check(args):
     if not args.noevidence:
         os.makedirs(os.path.join(VERIF, 'evidence'), exist_ok=True)
         with open(os.path.join(VERIF, 'evidence', prop + '.json'), 'w') as f:
-            json.dump(ev, f, indent=1, sort_keys=True, default=str)
+            json.dump(ev, f, indent=1, default=str)
     print('%s: %d runs (%d non-trivial, %d distinct shapes) in %.1fs; violations=%d known_hits=%s other=%s' % (
         prop, agg['evaluations'], agg['nontrivial'], distinct, wall, len(unlisted),
         known_hits, agg['other']))
